@@ -1,4 +1,5 @@
 import ShellOp.Proofs.Admission
+import ShellOp.Model.BindingContext
 /-!
 # C14 — admission webhooks fail closed and relay the hook's verdict faithfully
 
@@ -569,6 +570,121 @@ theorem respond_ok_ending (hooks : List Hook) (run : Nat → Binding → RunDecl
   rw [this]
   exact respond_ok hooks _ path req
 
+/-! ## the optional fields of a binding's configuration: `AllowFailure`, `group` (sixth wave)
+
+`failurePolicy`, `group`, `sideEffects`, `timeoutSeconds` and the selectors of a binding are
+configuration the property quantifies over and does not name: none of them may turn an internal
+error into `allowed=true`, none of them may keep the AdmissionReview from the hook. -/
+
+theorem eventHandlerAF_false (hooks : List Hook) (run : Nat → Binding → Outcome) (conf wid : Str) :
+    eventHandlerAF (fun _ _ => false) hooks run conf wid = eventHandler hooks run conf wid := by
+  simp [eventHandlerAF, eventHandler, taskStatusFail]
+
+/-- **"any internal error yields a denial", whatever `AllowFailure` is for the binding**: a task
+whose hook did not exit zero, whose response file is malformed or whose other output files cannot be
+applied never leads to `allowed=true` — with `Fail` it is "Hook failed" (403), with an allowed
+failure (`Success`) there is no `admissionResponse` prop, because the prop is stored as the last
+step of `handleRunHook`: "hook task prop error" (500). -/
+theorem internal_error_denied_any_allow_failure (af : Nat → Binding → Bool) (hooks : List Hook)
+    (run : Nat → Binding → Outcome) (conf wid : Str) (uid : String) (i : Nat) (b : Binding)
+    (hr : route hooks conf wid = some (i, b)) (hfail : taskFails (run i b) = true) :
+    (buildReview uid (eventHandlerAF af hooks run conf wid).1).allowed = false ∧
+      (buildReview uid (eventHandlerAF af hooks run conf wid).1).reason
+        = some (if af i b then .propError else .hookFailed) := by
+  cases haf : af i b <;> simp [eventHandlerAF, hr, taskStatusFail, hfail, taskProp, haf, buildReview]
+
+/-- **fail-closed for every `AllowFailure`**: `allowed=true` only if the routed hook's task did not
+fail in any way and its response file holds a valid allowing response. -/
+theorem fail_closed_any_allow_failure (af : Nat → Binding → Bool) (hooks : List Hook)
+    (run : Nat → Binding → Outcome) (conf wid : Str) (uid : String)
+    (h : (buildReview uid (eventHandlerAF af hooks run conf wid).1).allowed = true) :
+    ∃ i b r, route hooks conf wid = some (i, b) ∧ taskFails (run i b) = false ∧
+      (run i b).file = .valid r ∧ r.allowed = true := by
+  unfold eventHandlerAF at h
+  cases hr : route hooks conf wid with
+  | none => simp [hr, buildReview] at h
+  | some p =>
+    obtain ⟨i, b⟩ := p
+    simp only [hr] at h
+    cases hf : taskFails (run i b) with
+    | true =>
+      cases haf : af i b <;> simp [taskStatusFail, hf, haf, taskProp, buildReview] at h
+    | false =>
+      cases hfile : (run i b).file with
+      | empty => simp [taskStatusFail, hf, taskProp, hfile, buildReview] at h
+      | malformed => simp [taskStatusFail, hf, taskProp, hfile, buildReview] at h
+      | valid r =>
+        simp [taskStatusFail, hf, taskProp, hfile, buildReview] at h
+        exact ⟨i, b, r, rfl, hf, hfile, h⟩
+
+/-- T1: the two facts `internal_error_denied_any_allow_failure` rests on, each sufficient alone —
+`HandleEvent` never sets `AllowFailure` (so `eventHandlerAF` is `eventHandler`, the model of the `req`
+lines), and nothing that can fail follows the `SetProp("admissionResponse", …)` in `handleRunHook`
+(so `taskProp` is the prop). Regenerated from the sources on every run. -/
+theorem admission_failure_not_allowed_and_prop_last :
+    ShellOp.Facts.c14HandleEventAllowFailure = ["false", "false", "<absent>"] ∧
+      ShellOp.Facts.c14RunHookFailsAfterProp = [] ∧
+      allowFailureNeverSet = true ∧ propStoredLast = true := by decide
+
+section Context
+open ShellOp.BindingContext ShellOp.Json
+
+/-- `link.BindingType` of an admission link -/
+def admissionBType : Kind → BType
+  | .validating => .validating
+  | .mutating => .mutating
+
+/-- the `type` field of the context as the hook process reads it (`jq -r .type`) -/
+def ctxType (c : Ctx) : String :=
+  match (mapV1 c).lookup "type" with
+  | some (.str s) => s
+  | _ => "null"
+
+/-- **the request is handed to the hook**: the context `MapV1` renders for an admission binding —
+whatever its group, its snapshots and the other metadata are — has `type` `Validating` / `Mutating`
+after the binding's kind and carries the review. -/
+theorem admission_context_has_review (k : Kind) (c : Ctx) (hc : c.btype = admissionBType k) :
+    (mapV1 c).lookup "type" = some (.str (kindTypeName k)) ∧
+      (mapV1 c).lookup "review" = some (.str c.review) := by
+  cases k <;> simp only [admissionBType] at hc <;>
+    by_cases hs : (c.includeSnapshots.length > 0 || c.includeAll) = true <;>
+    simp [mapV1, typePart, snapPart, hc, hs, kindTypeName, List.lookup]
+
+/-- T1: the early returns of `MapV1`, in source order: the admission and conversion cases come
+before the `Group` case (regenerated from the source on every run). -/
+theorem mapV1_admission_before_group :
+    ((ShellOp.Facts.c09MapV1.filter (fun e => e.2 == "return")).map (·.1)).take 5 =
+      ["(bc.Metadata.BindingType == htypes.OnStartup)",
+       "(bc.Metadata.BindingType == htypes.KubernetesValidating)",
+       "(bc.Metadata.BindingType == htypes.KubernetesMutating)",
+       "(bc.Metadata.BindingType == htypes.KubernetesConversion)",
+       "(bc.Metadata.Group != \"\")"] := by decide
+
+/-- what the check evaluates on every observed hook process (`checkHandedCtx`) holds of the model:
+a request routed to `(h, b)`, rendered by `MapV1` as one context of the link's type — any group,
+any snapshots — with the request in it. -/
+theorem handed_admission_context (hooks : List Hook) (path : Str) (uid name : String) (h : Nat) (b : Binding)
+    (hr : route hooks (detect path).1 (detect path).2 = some (h, b))
+    (c : Ctx) (hc : c.btype = admissionBType b.kind) :
+    checkHandedCtx hooks path uid name ⟨h, b, uid⟩ (ctxType c) 1 name = none := by
+  have ht : ctxType c = kindTypeName b.kind := by
+    simp [ctxType, (admission_context_has_review b.kind c hc).1]
+  obtain ⟨⟨hk, hmem, hid, hb⟩, hcf, hw⟩ := route_some hr
+  have hreg : registeredFor hooks path h b = true := by
+    simp only [registeredFor, Bool.and_eq_true, List.any_eq_true, beq_iff_eq]
+    refine ⟨⟨hk, hmem, hid, ?_⟩, ?_⟩
+    · simpa using hb
+    · rw [← hcf, ← hw]
+  simp [checkHandedCtx, ht, checkHanded, hreg]
+
+/-- Seeded variant (C14-w6m3): the `Mutating` case of `MapV1` below the `Group` case -/
+def typePartGroupFirst (c : Ctx) : List (String × J) :=
+  if c.btype = .validating then [("type", .str "Validating"), ("review", .str c.review)] else
+  if c.group ≠ "" then [("type", .str "Group"), ("groupName", .str c.group)] else
+  if c.btype = .mutating then [("type", .str "Mutating"), ("review", .str c.review)] else []
+
+end Context
+
 /-! ## non-vacuity and witnesses -/
 
 section Examples
@@ -721,6 +837,44 @@ theorem exit_code_positive_witness :
     r.1 = .review ⟨"u", true, 0, none, [], "", false⟩ ∧
     checkObs twoHooks (fun _ _ => d.spec) p (.ok "u") r.1 r.2
       = some "allowed-although-the-hook-failed-or-wrote-no-valid-response" := by decide
+
+/-- `internal_error_denied_any_allow_failure` / `fail_closed_any_allow_failure` are not vacuous, and
+the excluded variants (C14-w6m2): the hook exits 0 with `allowed: true`, an object patch operation
+of the run cannot be applied. As the code is: `Fail` → "Hook failed"; were the failure allowed:
+no prop → 500. With the prop stored before the operations are applied (`taskPropEarly`) AND the
+failure allowed, the allowing response would be relayed — which the check rejects
+(`failed_task_allowed_witness`). -/
+example :
+    let o : Outcome := ⟨true, .valid ⟨true, "", [], ""⟩, false⟩
+    let run : Nat → Binding → Outcome := fun _ _ => o
+    let d := detect "/hooks/a-example-com".toList
+    route twoHooks d.1 d.2 = some (1, B .validating "a.example.com") ∧
+    buildReview "u" (eventHandlerAF (fun _ _ => false) twoHooks run d.1 d.2).1 = ⟨"u", false, 403, some .hookFailed, [], "", false⟩ ∧
+    buildReview "u" (eventHandlerAF (fun _ _ => true) twoHooks run d.1 d.2).1 = ⟨"u", false, 500, some .propError, [], "", false⟩ ∧
+    taskStatusFail true o = false ∧ taskProp o = none ∧ taskPropEarly o = some ⟨true, "", [], ""⟩ ∧
+    (buildReview "u" (eventHandlerAF (fun _ _ => true) twoHooks
+      (fun _ _ => ⟨true, .valid ⟨true, "", ["w"], ""⟩, true⟩) d.1 d.2).1).allowed = true := by decide
+
+section
+open ShellOp.BindingContext ShellOp.Json
+/-- `admission_context_has_review` / `handed_admission_context` are not vacuous (a mutating binding
+with a group and snapshots), and the excluded variant (C14-w6m3): with the `Mutating` case below the
+`Group` case the hook is handed `type: Group` without the review, which `checkHandedCtx` rejects. -/
+theorem group_before_mutating_witness :
+    let c : Ctx := { btype := .mutating, group := "main", includeSnapshots := ["pods"], binding := "myHook", review := "u-1" }
+    ctxType c = "Mutating" ∧ (mapV1 c).lookup "review" = some (.str "u-1") ∧
+    (typePartGroupFirst c).lookup "type" = some (.str "Group") ∧ (typePartGroupFirst c).lookup "review" = none ∧
+    checkHandedCtx twoHooks "/hooks/my-hook".toList "u-1" "pod-of-u-1" ⟨1, B .mutating "myHook", "u-1"⟩ "Mutating" 1 "pod-of-u-1" = none ∧
+    checkHandedCtx twoHooks "/hooks/my-hook".toList "u-1" "pod-of-u-1" ⟨1, B .mutating "myHook", "null"⟩ "Group" 1 "null"
+      = some "the-binding-context-is-not-an-admission-review-of-the-binding's-kind" := by
+  refine ⟨?_, ?_, ?_, ?_, ?_, ?_⟩
+  · simp [ctxType, mapV1, typePart, snapPart, List.lookup]
+  · simp [mapV1, typePart, snapPart, List.lookup]
+  · simp [typePartGroupFirst]
+  · simp [typePartGroupFirst]
+  · decide
+  · decide
+end
 
 end Examples
 
